@@ -48,6 +48,7 @@ struct ParseReport {
   long consumed = -1;  // CodedInputStream position after the parse (-1: not observable)
   bool bad_backup = false;
   bool spin = false;        // the parser kept pulling on the exhausted stream: cut off by the stream (non-termination)
+  bool runaway = false;     // runaway allocation without progress (non-termination), cut off by the allocation guard
   bool terminated = false;  // std::terminate() was called inside the parse (exception escaping the noexcept API)
   std::string escape_site, escape_msg;
   uint64_t next_calls = 0;
